@@ -90,7 +90,9 @@ func runC14(x *vt.Ctx, c CrashCase) *vt.Finding {
 	}
 	defer func() { w.Close() }()
 	for _, op := range c.Prep {
-		runOp(w, op)
+		if out := runOp(w, op); !out.Closed {
+			return vt.Failf("op="+op.Kind+":stream-not-closed fault=nofault", "fault-free %s of the prefix: result stream did not close: %s", op.Kind, jsonStr(op))
+		}
 		settle(w)
 	}
 	w.IC.Disable(true)
@@ -250,6 +252,6 @@ func crashOnce(x *vt.Ctx, wp **world.World, c CrashCase, s0 snapshot, steps []wo
 	return nil
 }
 
-var propC14 = vt.Prop[CrashCase]{ID: "C14", Test: "TestC14", Gen: genC14, Run: runC14}
+var propC14 = vt.Prop[CrashCase]{ID: "C14", Test: "TestC14", Gen: genC14, Run: runC14, Retry: timeoutFinding}
 
 func TestC14(t *testing.T) { topT = t; propC14.Check(t) }
